@@ -6,6 +6,7 @@ import (
 	"fmt"
 	"strconv"
 	"strings"
+	"time"
 
 	sse "github.com/tmaxmax/go-sse"
 
@@ -22,6 +23,7 @@ func jvf(tags []string, format string, a ...any) jv { return jv{Tags: tags, Msg:
 
 // putRec is one Put as seen by the recording replayer (Joe's serialisation order).
 type putRec struct {
+	VTime  time.Time
 	Token  string
 	Topics []string
 	ID     string
@@ -32,6 +34,7 @@ type putRec struct {
 }
 
 type regRec struct {
+	VTime      time.Time
 	LogPos     int   // index of the replay entry in the log
 	PutsBefore int   // number of puts logged before it
 	Start, End int64 // clock stamps of the Replay call
@@ -57,9 +60,9 @@ func buildView(tr *jTrace) *joeView {
 		}
 		switch e.Kind {
 		case "put":
-			v.Puts = append(v.Puts, putRec{Token: e.Token, Topics: e.Topics, ID: e.ID, IDSet: e.IDSet, Err: e.Err, Fault: e.Fault, Pos: i})
+			v.Puts = append(v.Puts, putRec{VTime: e.VTime, Token: e.Token, Topics: e.Topics, ID: e.ID, IDSet: e.IDSet, Err: e.Err, Fault: e.Fault, Pos: i})
 		case "replay":
-			v.Regs[e.Sub] = regRec{LogPos: i, PutsBefore: len(v.Puts), Start: e.Start, End: e.End, Err: e.Err, Fault: e.Fault, Present: true}
+			v.Regs[e.Sub] = regRec{VTime: e.VTime, LogPos: i, PutsBefore: len(v.Puts), Start: e.Start, End: e.End, Err: e.Err, Fault: e.Fault, Present: true}
 		}
 	}
 	for i := range v.Puts {
@@ -279,7 +282,17 @@ func expectedReplay(sc *jScenario, v *joeView, st *jSubTrace, reg regRec) (want 
 			buf = before
 		}
 	case "valid":
-		buf = before // TTL is one hour of virtual time: nothing expires
+		ttl := time.Hour
+		if sc.ValidTTL > 0 {
+			ttl = time.Duration(sc.ValidTTL)
+		}
+		for _, p := range before {
+			if p.VTime.Add(ttl).After(reg.VTime) {
+				buf = append(buf, p)
+			} else if p.ID == st.Spec.LastID && st.Spec.LastIDSet {
+				return nil, false // the presented ID has expired: unconstrained
+			}
+		}
 	default:
 		return nil, true // no real replayer: nothing is replayed
 	}
